@@ -46,6 +46,15 @@ def _pure(outkind, args, iib, kwx):
         return v
     if outkind == 'vector':
         return np.array([v, v + 1.0])
+    if outkind in ('mixed-int-first', 'mixed-intvec-first', 'mixed-str'):
+        # rows of DIFFERENT python / numpy types: the row computed for the first input row is the narrowest one (an integer, an integer array,
+        # a short string).  "identical to applying the operation to each row": np.array over the list of per-row results, no row cast to row 0's type
+        first = not bool(iib) if iib is not None else (v == float(int(v)) and int(v) % 2 == 0)
+        if outkind == 'mixed-int-first':
+            return int(v) if first else v + 0.25
+        if outkind == 'mixed-intvec-first':
+            return np.array([int(v), int(v) + 1]) if first else np.array([v + 0.25, v + 1.5])
+        return 'n' if first else 'positive-%d' % int(v)
     return [v] * (1 + (int(iib or 0) % 2))      # ragged python list (dtype=False only)
 
 
@@ -114,7 +123,13 @@ def rv_case(tools, kinds, dtype_name, B, bs_mode, meta, outkind, ragged=False, c
     for j in range(Bexp):
         args_j = [ins[p] if k not in 'AM' else ins[p][j] for p, k in enumerate(kinds)]
         want = _pure(outkind, args_j, j if meta else None, KWX)
-        if not _eq(res[j], want):
+        if outkind.startswith('mixed') and dtype is None:
+            # the reference result is numpy's own conversion of the LIST of per-row results (common type of all rows)
+            ref_all = np.array([_pure(outkind, [ins[p] if k not in 'AM' else ins[p][jj] for p, k in enumerate(kinds)], jj if meta else None, KWX) for jj in range(Bexp)])
+            if res.dtype != ref_all.dtype or not _eq(res[j], ref_all[j]):
+                return dict(what='row %d of the result (%r, dtype %s) is not row %d of np.array(per-row results) (%r, dtype %s): rows were cast to another row\'s type' % (
+                    j, res[j].tolist() if hasattr(res[j], 'tolist') else res[j], res.dtype, j, ref_all[j].tolist() if hasattr(ref_all[j], 'tolist') else ref_all[j], ref_all.dtype), input=inp)
+        elif not _eq(res[j], want):
             return dict(what='row %d of the result is not the operation applied to row %d of the inputs' % (j, j), input=inp)
         cargs, ckwx, cmeta, ciib = calls[j]
         if len(cargs) != len(args_j):
@@ -149,6 +164,12 @@ def rv_cases(tier):
                                 yield kinds, dtype_name, B, bs_mode, meta, outkind, False
                     if narr >= 2:
                         yield kinds, dtype_name, B, 'absent', True, 'scalar', True
+    # outputs whose TYPE differs between rows (the first row's result being the narrowest): meta on, so that the operation knows its row
+    for kinds in ('A', 'AS', 'CA', 'AZA'):
+        for outkind in ('mixed-int-first', 'mixed-intvec-first', 'mixed-str'):
+            for B in (2, 3):
+                yield kinds, 'none', B, 'absent', True, outkind, False
+                yield kinds, 'false', B, 'absent', True, outkind, False
     # arities 4..6: a deterministic pseudo-random sample of kind words (the proof tier has arity 4 exhaustively in the thorough tier and a spread of
     # arity-4 / arity-5 words in the quick tier; this is the bounded complement for larger arities)
     import random as _random
